@@ -660,6 +660,10 @@ ZDICT_optimizeTrainFromBuffer_fastCover(
       LOCALDISPLAYLEVEL(displayLevel, 1, "Incorrect accel\n");
       return ERROR(parameter_outOfBound);
     }
+    if (f == 0 || f > FASTCOVER_MAX_F) {
+      LOCALDISPLAYLEVEL(displayLevel, 1, "Incorrect f\n");
+      return ERROR(parameter_outOfBound);
+    }
     if (kMinK < kMaxD || kMaxK < kMinK) {
       LOCALDISPLAYLEVEL(displayLevel, 1, "Incorrect k\n");
       return ERROR(parameter_outOfBound);
